@@ -12,6 +12,7 @@ import (
 )
 
 type State struct {
+	epoch   *Term // changes whenever the heap may have changed (results of heap-reading pure calls depend on it)
 	env     map[types.Object]*Term
 	heap    map[string]*Term
 	assumes []*Term
@@ -19,7 +20,7 @@ type State struct {
 }
 
 func (s *State) clone() *State {
-	n := &State{env: make(map[types.Object]*Term, len(s.env)), heap: make(map[string]*Term, len(s.heap)), dead: s.dead}
+	n := &State{env: make(map[types.Object]*Term, len(s.env)), heap: make(map[string]*Term, len(s.heap)), dead: s.dead, epoch: s.epoch}
 	for k, v := range s.env {
 		n.env[k] = v
 	}
@@ -202,6 +203,20 @@ func (x *Exec) obligeNamed(s *State, name, kind string, goal *Term, p string, te
 		}
 		return
 	}
+	// forall k. (A => (B1 && B2 && ...))  ==>  one goal per conjunct
+	if goal.K == TQuant && goal.Op == "forall" {
+		body := goal.Args[0]
+		var ante *Term = True
+		if body.K == TApp && body.Op == "=>" {
+			ante, body = body.Args[0], body.Args[1]
+		}
+		if body.K == TApp && body.Op == "and" && len(body.Args) <= 12 {
+			for i, g := range body.Args {
+				x.obligeNamed(s, fmt.Sprintf("%s.q%d", name, i+1), kind, Forall(goal.Bound, Implies(ante, g), goal.Pats...), p, text)
+			}
+			return
+		}
+	}
 	o := &Obligation{Name: name, Kind: kind, Func: x.top.Key, Goal: goal, Pos: p, Text: text, fi: x.top, Props: x.curProps}
 	if goal == True {
 		o.Trivial = true
@@ -246,6 +261,12 @@ func (x *Exec) merge(base *State, states ...*State) *State {
 		guards[i] = suffixGuard(base, s)
 	}
 	m := &State{env: map[types.Object]*Term{}, heap: map[string]*Term{}}
+	m.epoch = live[0].epoch
+	for _, s := range live {
+		if s.epoch != m.epoch {
+			m.epoch = nil
+		}
+	}
 	m.assumes = append([]*Term(nil), base.assumes...)
 	m.assume(Or(guards...))
 	last := live[len(live)-1]
@@ -327,7 +348,19 @@ func (x *Exec) heapGet(s *State, name string, sort *Sort) *Term {
 
 func (x *Exec) heapSet(s *State, name string, t *Term) {
 	heapSorts[name] = t.S
+	if old, ok := s.heap[name]; !ok || old != t {
+		if name != "$alloc" && name != "$balloc" {
+			s.epoch = nil
+		}
+	}
 	s.heap[name] = t
+}
+
+func (x *Exec) epochOf(s *State) *Term {
+	if s.epoch == nil {
+		s.epoch = x.freshVar("epoch", SInt)
+	}
+	return s.epoch
 }
 
 func (x *Exec) havocHeap(s *State, name string) {
@@ -342,6 +375,9 @@ func (x *Exec) havocHeap(s *State, name string) {
 		return
 	}
 	s.heap[name] = x.freshVar(name, sort)
+	if name != "$alloc" && name != "$balloc" {
+		s.epoch = nil
+	}
 }
 
 func (x *Exec) havocAllHeap(s *State) {
